@@ -36,6 +36,9 @@ ACTIONS = ["Defaults", "PerRequest", "Enter", "Exit", "Refresh", "Plugin", "Shor
 HOLDING = ["TypeOK", "MachineIsModel", "KeyPlacement", "CallerArgsUntouched", "TokenFresh", "DefaultsAsConfigured", "RequestIsolation"]
 HOLDING_PROPS = ["DefaultsUnchanged"]
 FIXED = HOLDING + ["SentEqualsFold", "DesignOK"]
+# requests in flight together (TransportConc.tla)
+ACTIONS_CONC = ["Start", "Enter", "Exit", "AwaitBegin", "AwaitEnd", "Plugin", "Send", "Judge"]
+HOLDING_CONC = ["TypeOK", "MachineIsModel", "KeyPlacement", "CallerArgsUntouched", "TokenFresh", "RequestIsolation", "NothingForeign"]
 CLAUSES = [
     "C17.header_precedence",
     "C17.plugin_order",
@@ -47,12 +50,13 @@ CLAUSES = [
     "C17.defaults_mutated",
     "C17.request_isolation[later requests judged]",
     "C17.token_stale[no-op refresh answers]",
+    "C17.request_isolation[requests in flight together]",
 ]
 
 
 @dataclass(frozen=True)
 class Chunk:
-    family: str  # "single" | "session"
+    family: str  # "single" | "session" | "nesting" | "conc" (requests in flight together: TransportConc.tla)
     max_plugins: int
     max_reqs: int
     first: str
@@ -63,9 +67,22 @@ class Chunk:
     def label(self) -> str:
         return f"{self.family}:p{self.max_plugins}{self.first},r{self.max_reqs}"
 
+    @property
+    def module(self) -> str:
+        return "TransportConc" if self.family == "conc" else "Transport"
+
 
 def design_cfg(c: Chunk, variant: str, emit: bool, invariants: list[str], props: list[str]) -> str:
     inv = "".join(f"INVARIANT {i}\n" for i in invariants) + "".join(f"PROPERTY {i}\n" for i in props)
+    if c.family == "conc":
+        return f"""SPECIFICATION Spec
+CONSTANTS
+ MaxPlugins = {c.max_plugins}
+ NReqs = {c.max_reqs}
+ Variant = {tla(variant)}
+ Emit = {tla(emit)}
+{inv}CHECK_DEADLOCK FALSE
+"""
     return f"""SPECIFICATION Spec
 CONSTANTS
  MaxPlugins = {c.max_plugins}
@@ -137,11 +154,21 @@ def design_broken(sub: _SubScratch):
     return f"Transport[aliased_defaults,{c.label}]", r, {"variant": "aliased_defaults", "chunk": c.label}, "must_fail"
 
 
+def design_broken_conc(sub: _SubScratch, variant: str):
+    """One dict per TRANSPORT for what the plug-ins are handed ("shared_scratch") / for the outgoing arguments
+    ("shared_request_args") instead of one per request: with two requests in flight these designs must violate the
+    per-request properties."""
+    c = Chunk("conc", 1, 2, "any", True)
+    inv = ["KeyPlacement", "CallerArgsUntouched", "TokenFresh", "RequestIsolation", "NothingForeign"]
+    r = run_tlc(sub, "TransportConc", design_cfg(c, variant, False, inv, []), allow_violation=True, workers=2)
+    return f"TransportConc[{variant},{c.label}]", r, {"variant": variant, "chunk": c.label}, "must_fail"
+
+
 def account_side_run(chk: Check, name: str, r: core.TlcResult, what: dict, mode: str) -> None:
     chk.add_tlc(name, r)
     if mode == "must_fail":
-        chk.require(bool(r.violated), "the broken design (prepared headers alias the defaults dict) satisfies the isolation properties: they do not bind")
-        chk.cov["broken_design_rejected_by"] = r.violated[0]
+        chk.require(bool(r.violated), f"the broken design {what['variant']} satisfies the isolation properties: they do not bind")
+        chk.cov.setdefault("broken_designs_rejected_by", {})[what["variant"]] = r.violated[0]
         return
     chk.require(r.distinct > 0, f"{name} explored nothing")
     if r.violated:
@@ -159,7 +186,7 @@ def account_side_run(chk: Check, name: str, r: core.TlcResult, what: dict, mode:
 
 def complexity(sc: dict) -> int:
     """Number of features switched on: the first failing scenario of every (clause, locus) becomes the replay file."""
-    n = 3 * len(sc["plugs"]) + (1 if sc["short"] else 0) + 4 * (len(sc["reqs"]) - 1)
+    n = 3 * len(sc["plugs"]) + (1 if sc["short"] else 0) + 4 * (len(sc["reqs"]) - 1) + len(sc["sched"])
     n += sum(1 for k in ("dflt", "ca") if sc[k] != "none") + sum(1 for k in ("kn", "hn") if sc[k] != "disjoint")
     n += sum(1 for r in sc["reqs"] if r != "none") + sum(1 for r in sc["rets"] if r != "new")
     n += sum(1 for k in ("params", "cookies", "body") if sc[k]) + sum(1 for t in sc["tree"] if t == "(")
@@ -211,6 +238,12 @@ NEGATIVES = [
      _at(0, lambda o: {**o, "headers": _set_header(o["headers"], "authorization", "Bearer tok-b")}), "C17.plugin_order"),
     ("earlier_key_wins", lambda sc: sc["plugs"] == ["KQ", "KQ2"] and sc["tree"] == ["(", "(", "*", "*", ")", ")"],
      _at(0, lambda o: {**o, "query": [[k, "key-q" if v == "key-q2" else v] for k, v in o["query"]]}), "C17.plugin_order"),
+    # requests in flight together
+    ("other_requests_headers", lambda sc: bool(sc["sched"]) and sc["plugs"] == ["OR"] and sc["reqs"] == ["equal", "disjoint"],
+     lambda obs: [{**obs[0], "headers": [h for h in obs[1]["headers"] if h[1] != "authorization"] + [h for h in obs[0]["headers"] if h[1] == "authorization"]}, obs[1]],
+     "C17.header_precedence"),
+    ("other_requests_body", lambda sc: bool(sc["sched"]) and sc["plugs"] == ["OR"], _at(0, lambda o: {**o, "body": "payload-2"}), "C17.body_changed"),
+    ("other_requests_params", lambda sc: bool(sc["sched"]) and sc["plugs"] == ["OR"], _at(0, lambda o: {**o, "query": [["q", "2"], ["page", "2"]]}), "C17.caller_params_changed"),
     ("callback_shown_nothing", lambda sc: sc["plugs"] == ["OR"] and sc["rets"] == ["none", "new"] and sc["ca"] == "none",
      _at(1, lambda o: {**o, "refresh": ["<none>"]}), "C17.token_stale"),
 ]
@@ -233,8 +266,13 @@ def pipeline(sub: _SubScratch, c: Chunk, scen_override: list[dict] | None = None
     """Thread-safe part: TLC design + generation, replay on the real code, TLC monitor.  Returns a bundle for account()."""
     b: dict[str, Any] = {"chunk": c, "tlc": [], "violated": None, "scen": [], "res": [], "vs": {}, "negs": []}
     if scen_override is None:
-        r = run_tlc(sub, "Transport", design_cfg(c, "as_is", True, HOLDING, HOLDING_PROPS), allow_violation=True, workers=12)
-        b["tlc"].append((f"Transport[as_is,{c.label}]", r))
+        conc = c.family == "conc"
+        r = run_tlc(sub, c.module, design_cfg(c, "as_is", True, HOLDING_CONC if conc else HOLDING, HOLDING_PROPS), allow_violation=True, workers=12, coverage=conc)
+        b["tlc"].append((f"{c.module}[as_is,{c.label}]", r))
+        if conc and not r.violated:
+            for a in ACTIONS_CONC:
+                if r.coverage.get(a, (0, 0))[1] <= 0:
+                    raise core.MachineryError(f"vacuous concurrent design run: action {a} never taken")
         if r.violated:
             b["violated"] = (r.violated[0], r.out[-1500:])
             return b
@@ -310,6 +348,7 @@ def account(chk: Check, b: dict, design_dev: Counter, verbose: bool = False) -> 
         chk.clause("C17.defaults_mutated", a["defaults"])
         chk.clause("C17.request_isolation[later requests judged]", a["later"])
         chk.clause("C17.token_stale[no-op refresh answers]", a["noop_refresh"])
+        chk.clause("C17.request_isolation[requests in flight together]", a["inflight"])
         if sc["plugs"] or sc["short"] or len(sc["reqs"]) > 1 or (cfg["defaults"] and cfg["requests"][0]):
             chk.nontrivial(sc)
         # the SCEN line's design verdict and the monitor's evaluation of the model are the same computation
@@ -355,7 +394,11 @@ def run(chk: Check) -> None:
         "body present iff cookies absent). Family 'session' (one transport, 2 requests; thorough also 3 requests and <=2 "
         "plug-ins): <=1 plug-in, every wrapping / shortcut, every combination of per-request header patterns per position, a "
         "per-request Authorization header on the first request {none, equal, case variant}, every script of refresh-callback "
-        "answers per position {new token, same token, '', None}, params / cookies / body on every request. Family 'nesting' (one "
+        "answers per position {new token, same token, '', None}, params / cookies / body on every request. Family 'conc' (TransportConc.tla): 2 (thorough also 3) requests IN "
+        "FLIGHT TOGETHER on one transport, every plug-in sequence of <=2 that contains OAuth2-with-refresh (the plug-in that "
+        "suspends) in every wrapping, every combination of per-request header patterns, distinct params / cookies / body / path "
+        "per request, and EVERY interleaving of start / resume events (TLC explores them; each behaviour is replayed with a "
+        "refresh callback that waits for a future the harness resolves in the prescribed order). Family 'nesting' (one "
         "request): the auth configuration as a tree - EVERY nesting of CompositeAuth of <=9 tokens (thorough 11) and depth <=3, "
         "incl. singleton and empty nested groups at any position, over every sequence of 2-3 (thorough 4) distinct plug-ins "
         "that overlap in what they set ({Bearer, OAuth2, OAuth2+refresh, HeadersAuth(Authorization)}; two ApiKeyAuth of the same "
@@ -378,10 +421,12 @@ def run(chk: Check) -> None:
         # partitioned by their first plug-in (body tied to the cookie dimension)
         singles = [Chunk("single", 2, 1, "any", False)] + [Chunk("single", 3, 1, k, True) for k in KINDS]
         nestings = [Chunk("nesting", 4, 1, "any", True, 11)]
+        concs = [Chunk("conc", 2, 2, "any", True), Chunk("conc", 1, 3, "any", True)]
         sessions = [Chunk("session", 1, 2, "any", True), Chunk("session", 2, 2, "any", True), Chunk("session", 1, 3, "any", True)]
     else:
         singles = [Chunk("single", 2, 1, "any", True)]
         nestings = [Chunk("nesting", 3, 1, "any", True, 9)]
+        concs = [Chunk("conc", 2, 2, "any", True)]
         sessions = [Chunk("session", 1, 2, "any", True)]
     side = _SubScratch(chk, "side")
 
@@ -394,8 +439,9 @@ def run(chk: Check) -> None:
         # single-request lane runs; all accounting happens here in the main thread
         f_singles = pool.submit(lane, "singles", singles)
         f_sessions = pool.submit(lane, "sessions", sessions)
-        f_nestings = pool.submit(lane, "nestings", nestings)
+        f_nestings = pool.submit(lane, "nestings", nestings + concs)
         f_side = [pool.submit(coverage_run, side), pool.submit(design_broken, side)]
+        f_side += [pool.submit(design_broken_conc, side, v) for v in ("shared_scratch", "shared_request_args")]
         f_side += [pool.submit(design_fixed, side, c) for c in nestings + sessions + singles]
         for b in f_singles.result():
             account(chk, b, design_dev)
